@@ -50,16 +50,27 @@ __all__ = ("TrioEventLoop",)
 class _TrioIdleCallbackInstrument(trio.abc.Instrument):
     """IDLE callbacks emulation helper."""
 
-    __slots__ = ("idle_callbacks",)
+    __slots__ = ("idle_callbacks", "on_error")
 
-    def __init__(self, idle_callbacks: Mapping[Hashable, Callable[[], typing.Any]]):
+    def __init__(
+        self,
+        idle_callbacks: Mapping[Hashable, Callable[[], typing.Any]],
+        on_error: Callable[[BaseException], typing.Any] | None = None,
+    ):
         self.idle_callbacks = idle_callbacks
+        self.on_error = on_error
 
     def before_io_wait(self, timeout: float) -> None:
         if timeout > 0:
-            for handle, idle_callback in list(self.idle_callbacks.items()):
-                if handle in self.idle_callbacks:  # not removed by a previous idle callback
-                    idle_callback()
+            try:
+                for handle, idle_callback in list(self.idle_callbacks.items()):
+                    if handle in self.idle_callbacks:  # not removed by a previous idle callback
+                        idle_callback()
+            except BaseException as exc:
+                # trio would log the exception and disable the instrument: hand it to the main task instead
+                if self.on_error is None:
+                    raise
+                self.on_error(exc)
 
 
 class TrioEventLoop(EventLoop):
@@ -166,7 +177,7 @@ class TrioEventLoop(EventLoop):
         exception. If ExitMainLoop is raised, exits cleanly.
         """
 
-        emulate_idle_callbacks = _TrioIdleCallbackInstrument(self._idle_callbacks)
+        emulate_idle_callbacks = _TrioIdleCallbackInstrument(self._idle_callbacks, self._fail_from_idle)
 
         try:
             trio.run(self._main_task, instruments=[emulate_idle_callbacks])
@@ -191,7 +202,7 @@ class TrioEventLoop(EventLoop):
                 nursery.cancel_scope.cancel()
         """
 
-        emulate_idle_callbacks = _TrioIdleCallbackInstrument(self._idle_callbacks)
+        emulate_idle_callbacks = _TrioIdleCallbackInstrument(self._idle_callbacks, self._fail_from_idle)
 
         try:
             trio.lowlevel.add_instrument(emulate_idle_callbacks)
@@ -237,6 +248,16 @@ class TrioEventLoop(EventLoop):
             await self._sleep(seconds)
             if not scope.cancel_called:  # not removed while this task was waking up
                 callback()
+
+    def _fail_from_idle(self, exc: BaseException) -> None:
+        """Re-raises an exception of an idle callback inside the nursery, waking the loop up."""
+
+        async def _reraise() -> None:
+            raise exc
+
+        nursery = self._nursery
+        if nursery is not None:
+            trio.lowlevel.current_trio_token().run_sync_soon(nursery.start_soon, _reraise)
 
     def _handle_main_loop_exception(self, exc: BaseException) -> None:
         """Handles exceptions raised from the main loop, catching ExitMainLoop
